@@ -329,20 +329,42 @@ fn changing_value_cases(rep: &mut Report) {
 }
 
 fn directory_cases(rep: &mut Report) {
-    // a value containing path separators: the file lands in the expanded directory
+    // a value containing path separators: the file lands in the expanded directory. Expansion is textual:
+    // a value that starts with '/' in the middle of a path does not make the path start over.
+    std::env::set_var("L4V_ABSV", "/abs/inner");
     for (k, raw_rel, want_rel) in [
         (0, "$ENV{L4V_DIR}/app.log", "sub/dir/app.log"),
         (1, "x/$ENV{L4V_DIR}/$ENV{L4V_A}.log", "x/sub/dir/plain.log"),
         (2, "$ENV{L4V_UNSET}/app.log", "$ENV{L4V_UNSET}/app.log"),
+        (3, "x/$ENV{L4V_ABSV}/app.log", "x/abs/inner/app.log"),
+        (4, "x$ENV{L4V_ABSV}/y$ENV{L4V_ABSV}.log", "x/abs/inner/y/abs/inner.log"),
     ] {
-        let sc = Scratch::new("c19d");
-        let raw = format!("{}/{}", sc.path.to_str().unwrap(), raw_rel);
-        rep.case_enumerated(true);
-        let r = trap::catch(|| FileAppender::builder().build(&raw).map(|_| ()).map_err(|e| e.to_string()));
-        let got = dir_files(&sc.path).keys().cloned().collect::<Vec<_>>();
-        rep.count("locations_compared", 1);
-        if !matches!(r, Ok(Ok(()))) || got != vec![want_rel.to_owned()] {
-            rep.violation("C19:wrong-location", json!({"case": {"input": raw_rel, "expected_file": want_rel, "created": got, "directory_case": k}}));
+        for site in 0..3 {
+            let sc = Scratch::new("c19d");
+            let raw = format!("{}/{}", sc.path.to_str().unwrap(), raw_rel);
+            rep.case_enumerated(true);
+            let r = trap::catch(|| -> Result<(), String> {
+                match site {
+                    0 => FileAppender::builder().build(&raw).map(|_| ()).map_err(|e| e.to_string()),
+                    1 => RollingFileAppender::builder()
+                        .build(&raw, Box::new(CompoundPolicy::new(Box::new(SizeTrigger::new(1 << 30)), Box::new(DeleteRoller::new()))))
+                        .map(|_| ())
+                        .map_err(|e| e.to_string()),
+                    _ => {
+                        let active = sc.path.join("active.tmp");
+                        std::fs::write(&active, b"x").map_err(|e| e.to_string())?;
+                        let roller = FixedWindowRoller::builder().build(&format!("{}.{{}}", raw), 2).map_err(|e| e.to_string())?;
+                        roller.roll(&active).map_err(|e| e.to_string())
+                    }
+                }
+            });
+            let want_file = if site == 2 { format!("{}.0", want_rel) } else { want_rel.to_owned() };
+            let got = dir_files(&sc.path).keys().cloned().collect::<Vec<_>>();
+            rep.count("locations_compared", 1);
+            if !matches!(r, Ok(Ok(()))) || got != vec![want_file.clone()] {
+                rep.violation("C19:wrong-location", json!({"case": {"input": raw_rel, "expected_file": want_file, "created": got, "directory_case": k, "call_site": site,
+                    "result": format!("{:?}", r.map_err(|p| p.message))}}));
+            }
         }
     }
 }
